@@ -39,6 +39,7 @@ type Fx struct {
 	ret           []*retCtx
 	jumps         []*jumpCtx
 	loopOrd       int
+	selRecv       []string // channels received from by the selects whose case bodies are being executed
 	maxLoopOrd    int // highest loop ordinal met (loop contracts beyond it bind to nothing)
 	spec          *FuncSpec
 	params        []types.Object
@@ -229,6 +230,13 @@ func (fx *Fx) exec(st *State, s ast.Stmt) {
 			cnc0 := fmt.Sprintf("(select (select %s %d) %s)", fx.entry.heap("CNC", cntSort), evKinds["Send"], ch.T)
 			phi := fmt.Sprintf("(and (> %s %s) (>= (select %s %s) 1) (= %s %s))", ch.T, fx.entry.alloc, st.heap("CP", "(Array Int Int)"), ch.T, cnc, cnc0)
 			fx.c.oblige(st, "blocking", "send("+fx.exprText(s.Chan)+")", phi, "send cannot block: "+fx.exprText(s.Chan)+" is a buffered channel created here and not yet sent to (otherwise use select with default)", fx.w.pos(s.Pos()))
+		}
+		for _, r := range fx.selRecv {
+			// structural: the same channel expression as one the enclosing select receives from (semantic equality of
+			// channels of one type cannot be refuted locally and would alarm on every reply channel)
+			if r == fx.exprText(s.Chan) {
+				fx.c.oblige(st, "blocking", "self-send("+fx.exprText(s.Chan)+")", "false", "a send made inside a select's case body does not go to the channel that select receives from (its reader is busy here: the send blocks for ever once the buffer is full)", fx.w.pos(s.Pos()))
+			}
 		}
 		fx.chanSend(st, ch, v, s)
 	default:
@@ -715,7 +723,19 @@ func (fx *Fx) execSelect(st *State, s *ast.SelectStmt) {
 				fx.writeLoc(t, loc, fx.convertTo(t, vals[k], loc.locType()))
 			}
 		}
+		// while a clause body runs, the channels this select receives from are not being read: a plain send to one
+		// of them from here blocks for ever once its buffer is full (the goroutine is that channel's reader)
+		saved := fx.selRecv
+		for _, q := range preps {
+			switch c := q.cc.Comm.(type) {
+			case *ast.ExprStmt:
+				fx.selRecv = append(fx.selRecv, fx.exprText(unparen(c.X).(*ast.UnaryExpr).X))
+			case *ast.AssignStmt:
+				fx.selRecv = append(fx.selRecv, fx.exprText(unparen(c.Rhs[0]).(*ast.UnaryExpr).X))
+			}
+		}
 		fx.execBlock(t, cc.Body)
+		fx.selRecv = saved
 		outs = append(outs, t)
 	}
 	fx.jumps = fx.jumps[:len(fx.jumps)-1]
